@@ -63,6 +63,10 @@ var vFieldKinds = []vFieldKind{
 	{decl: "Dq float64 \"json:\\\"dq,omitempty\\\"\"", wants: []vWant{vw("dq", "number", "double")}},
 	// a named string carrying a swagger:strfmt annotation; the instant type of package time
 	{decl: "Ul ULID `json:\"ul\"`", aux: "// ULID is an identifier\n//\n// swagger:strfmt ulid\ntype ULID string\n", wants: []vWant{vw("ul", "string", "ulid")}},
+	// a model renamed by an annotation written without a blank after the slashes (the directive form gofmt keeps)
+	{decl: "Own *Owner `json:\"own\"`", aux: "// Owner is a renamed model\n//\n//swagger:model owner\ntype Owner struct {\n\tY bool `json:\"y\"`\n}\n", wants: []vWant{{name: "own", ref: "owner"}}},
+	// two packages called types, each with a type Money: one a formatted string, the other a plain struct
+	{decl: "Old ltypes.Money `json:\"old\"`\n\tTotal btypes.Money `json:\"total\"`", imp: "money", wants: []vWant{vw("old", "string", "money"), {name: "total", ref: "Money"}}},
 	{decl: "When time.Time `json:\"when\"`", imp: "time", wants: []vWant{vw("when", "string", "date-time")}},
 	{decl: "Whens []*time.Time `json:\"whens\"`", imp: "time", wants: []vWant{{name: "whens", typ: "array", items: &vWant{typ: "string", format: "date-time"}}}},
 	// text marshalers: value receiver, pointer receiver behind a pointer field and as slice element
@@ -168,6 +172,15 @@ func VerifC16TypeWalk() {
 	if imports["time"] {
 		srcs = append(srcs, vPkgSrc{"time", vMiniTime})
 		head += "import \"time\"\n\n"
+	}
+	if imports["money"] {
+		srcs = append(srcs, vPkgSrc{"example.com/legacy/types", "package types\n\n// Money is an amount written as text\n//\n// swagger:strfmt money\ntype Money string\n"})
+		srcs = append(srcs, vPkgSrc{"example.com/billing/types", "package types\n\n// Money is an amount with its currency\ntype Money struct {\n\tCents int64 `json:\"cents\"`\n}\n"})
+		if imports["time"] {
+			head = "package a\n\nimport (\n\t\"time\"\n\tbtypes \"example.com/billing/types\"\n\tltypes \"example.com/legacy/types\"\n)\n\n"
+		} else {
+			head = "package a\n\nimport (\n\tbtypes \"example.com/billing/types\"\n\tltypes \"example.com/legacy/types\"\n)\n\n"
+		}
 	}
 	src := head + strings.Join(aux, "\n") + "\n// Thing is the model under test\n//\n// swagger:model\ntype Thing struct {\n" + strings.Join(decls, "\n") + "\n}\n"
 	srcs = append(srcs, vPkgSrc{"example.com/a", src})
